@@ -5,7 +5,8 @@ D=$1; shift
 cd /repo || exit 2
 if [ -n "$(git status --porcelain --untracked-files=no)" ]; then echo "/repo not clean"; exit 2; fi
 git apply "$D/patch.diff" || { echo "patch does not apply"; exit 2; }
-trap 'git -C /repo checkout -- . ; git -C /repo clean -fdq panqec >/dev/null 2>&1' EXIT
+rm -rf /verif/work/evidence.bak; cp -r /verif/evidence /verif/work/evidence.bak
+trap 'git -C /repo checkout -- . ; git -C /repo clean -fdq panqec >/dev/null 2>&1; rm -rf /verif/evidence; mv /verif/work/evidence.bak /verif/evidence' EXIT
 cd /verif
 for c in "$@"; do
   echo "== $c on $(basename $D)"
